@@ -23,10 +23,13 @@ class Skip(Exception):
 class Snapshot:
     """Deep copy of the object graph reachable from the roots, with original<->copy maps."""
 
-    def __init__(self, roots):
+    def __init__(self, roots, classes=()):
         self.memo = {}      # id(original) -> copy
         self.back = {}      # id(copy) -> original
         self.keep = []
+        # mutable class attributes (e.g. Container.next_container_num) as they were
+        self.class_attrs = {id(c): {k: v for k, v in vars(c).items() if isinstance(v, (int, float, str)) and not k.startswith("__")}
+                            for c in classes}
         for r in roots:
             self.copy(r)
 
@@ -128,6 +131,8 @@ class Evaluator:
 
     def n_Attribute(self, n, env, snap, in_old):
         base = self.ev(n.value, env, snap, in_old)
+        if in_old and snap is not None and isinstance(base, type) and n.attr in snap.class_attrs.get(id(base), {}):
+            return snap.class_attrs[id(base)][n.attr]
         try:
             v = getattr(base, n.attr)
         except AttributeError:
@@ -317,7 +322,10 @@ class Evaluator:
                     raise Skip("old() without snapshot")
                 env2 = {}
                 for k, v in env.items():
-                    env2[k] = snap.to_old(v) if not isinstance(v, ATOMIC) else v
+                    try:
+                        env2[k] = snap.to_old(v) if not isinstance(v, ATOMIC) else v
+                    except Skip:
+                        pass   # a fresh object (e.g. `result`) has no pre-state twin; using it inside old() is skipped
                 return snap.to_new(self.ev(A[0], env2, snap, True))
             if name in ("all", "any") and isinstance(A[0], ast.GeneratorExp):
                 return self.quant(A[0], env, snap, in_old, name == "all")
